@@ -47,7 +47,7 @@ package tchannel
 
 // (the two public selection entry points count for C04 too: they are where the
 // write lock is taken before choosePeer runs)
-//@ func (l *PeerList) Get(prevSelected map[string]struct{}) (p *Peer, err error)
+//@ func (l *PeerList) Get(prevSelected map[string]struct{}) (peer *Peer, err error)
 //@   property C04
-//@ func (l *PeerList) GetNew(prevSelected map[string]struct{}) (p *Peer, err error)
+//@ func (l *PeerList) GetNew(prevSelected map[string]struct{}) (peer *Peer, err error)
 //@   property C04
